@@ -170,5 +170,26 @@ func H_Rollback() {
 		vp.Assert("C13.no-leftover-of-rolled-back-commit", before[k])
 	}
 	vp.Observe("rolled-back", len(db.Keys()), len(before), len(afterCommit))
+	// ... and the checkpoint state stays resolvable through the garbage-collection passes that
+	// follow the rollback (nothing the rolled-back commit superseded may still be staged)
+	if vp.Param("gc_after", 0) == 1 {
+		var gerr error
+		if vp.NoPanic("C13.nopanic", func() {
+			gerr = t.DeleteNodes()
+			if gerr == nil {
+				gerr = t.DeleteNodes()
+			}
+		}) {
+			return
+		}
+		vp.Assert("C13.gc-after-rollback-ok", gerr == nil)
+		r2 := wmpt.New(wmpt.NewHashNode(append([]byte{}, cpRoot...), cpWeight), db)
+		var err2 error
+		if vp.NoPanic("C13.nopanic", func() { _, _, err2 = r2.GetBlockProof(b) }) {
+			return
+		}
+		vp.Assert("C13.checkpoint-resolves-after-gc", err2 == nil)
+		vp.Cover("C13.gc-after")
+	}
 	vp.Cover("C13.done")
 }
